@@ -124,10 +124,11 @@ def indexLine (bs : Int) (st : IdxState) (line : Bytes) : R IdxState := do
     pure { st with name := some name, seqLength := 0, rpl := some 0, regionStart := 0, regionEnd := none,
                    seqRegions := [], fileOffset := st.pos, lineEndBytes := if b2 = 13 then 2 else 1 }
   else do
+    -- the last line of the file may have no line ending: slice only when the line ends with LF
+    let keep := if line.getLast? = some 10 then line.take (line.length - st.lineEndBytes.toNat) else line
     let st ← match st.rpl with
       | none => throw .type
-      | some r => pure (if r = 0 then { st with rpl := some ((line.length : Int) - st.lineEndBytes) } else st)
-    let keep := line.take (line.length - st.lineEndBytes.toNat)
+      | some r => pure (if r = 0 then { st with rpl := some (keep.length : Int) } else st)
     let st := { st with buffer := st.buffer ++ keep }
     let st := { st with maxBuffered := max st.maxBuffered st.buffer.length }
     if (st.buffer.length : Int) > bs then pure (processSeqBuffer st) else pure st
